@@ -47,6 +47,10 @@ structure ArgInput where
   commands : List String         -- `--commands` (sequences not included, as in the code)
   namedTargets : List String     -- `-t`
 
+/-- the file an argmap name stands for inside the target's argmap directory: `format!("{}.json", m)`
+(appended, not substituted: a name may contain dots) -/
+def argmapFile (n : String) : String := n ++ ".json"
+
 /-- the argmap files of a target: name ↦ parsed content, `none` when the file does not exist -/
 abbrev TargetFiles := String → Option CmdArgs
 
